@@ -16,7 +16,7 @@ from kverif.common import Deadline, case_rng, stable_hash, tier_value
 ID = 'C08'
 LEVEL = 'exploration'
 RULE = ('worlds 2-6; group mixtures per communicator (WORLD, pairs, triples, distinct groups of equal size sharing a rank); 1-12 tensors per cycle, 1-D/2-D/3-D shapes, '
-        'dtypes {float32,float64,bfloat16} incl. mixed-dtype sequences, average/symmetric flags, capacities {1 byte, < one tensor, between, > all}, 1-4 fill/flush cycles, '
+        'dtypes {float32,float64,bfloat16} incl. mixed-dtype sequences, average/symmetric flags, capacities {1 byte, < one tensor, between, > all}, 1-4 fill/flush cycles (4 % of the cases 12-30 cycles), '
         'per-rank different interleavings across groups, all scheduler policies, line-level callback stress; non-trivial: >=2 tensors share a bucket or >=2 groups are used; '
         'distinct = hash(group mixture, capacity class, flag pattern)')
 ASSUMPTIONS = ['all members of a group submit the same tensors for that group in the same order (the API\'s contract)',
@@ -51,9 +51,10 @@ def make_plan(rng):
     base_dt = rng.choice(['float32', 'float64', 'bfloat16'])
     real_valued = rng.random() < 0.3
     cycles = []
-    for c in range(rng.randint(1, 4)):
+    long_run = rng.random() < 0.04   # many fill/flush cycles on one communicator: state that only goes wrong after a long history
+    for c in range(rng.randint(12, 30) if long_run else rng.randint(1, 4)):
         items = []
-        for t in range(rng.randint(1, 12)):
+        for t in range(rng.randint(1, 3) if long_run else rng.randint(1, 12)):
             sym = rng.random() < 0.3
             if sym:
                 k = rng.randint(1, 6)
